@@ -90,7 +90,6 @@ Section Summary.
   Variable fmt : num -> string.
   Variable asis : list (string * num).
   Hypothesis Hcast : cast_agrees cast.
-  Hypothesis Hfmt : fmt_agrees fmt.
 
   Definition names : list string := map fst asis.
   Definition nv : nat := len asis.
@@ -99,10 +98,7 @@ Section Summary.
     map (fun r => map (to_base cast) (row_fields r)) sm.
 
   Definition summary_table (sm : list srow) : table :=
-    mkTable (header_fields names) (nv + 3) (cells_of sm).
-
-  Definition cellstr (v : cellv) : string :=
-    match v with VStr s => s | VNum x => fmt x | VBool _ => EmptyString end.
+    mkTable (header_fields names) (nv + 3) (cells_of sm) (map row_fields sm).
 
   Lemma len_names : len names = nv.
   Proof. unfold names, nv. apply map_length. Qed.
@@ -118,9 +114,12 @@ Section Summary.
   Proof.
     intros sm Hall. unfold marshal_records. cbn [parse_csv_text_into_table].
     rewrite derive_table_rectangular.
-    - cbn [res_bind]. unfold summary_table. rewrite len_header. do 3 f_equal.
-      unfold cast_rows, cells_of. rewrite map_map. apply map_ext_in. intros r Hin.
-      rewrite firstn_all2; [reflexivity|]. rewrite (len_row_fields r (Hall r Hin)). lia.
+    - cbn [res_bind]. unfold summary_table. rewrite len_header. do 2 f_equal.
+      assert (Hfirst : forall r, In r sm -> firstn (nv + 3) (row_fields r) = row_fields r).
+      { intros r Hin. apply firstn_all2. rewrite (len_row_fields r (Hall r Hin)). lia. }
+      f_equal.
+      + unfold cast_rows, cells_of. rewrite map_map. apply map_ext_in. intros r Hin. rewrite (Hfirst r Hin). reflexivity.
+      + unfold text_rows. rewrite map_map. apply map_ext_in. intros r Hin. apply (Hfirst r Hin).
     - cbn [rectangular]. apply forallb_forall. intros x Hx. apply in_map_iff in Hx.
       destruct Hx as [r [<- Hin]]. apply Nat.eqb_eq. rewrite (len_row_fields r (Hall r Hin)), len_header. reflexivity.
   Qed.
@@ -136,11 +135,12 @@ Section Summary.
     rewrite nth_error_map, Hf. reflexivity.
   Qed.
 
+  (* CellString: the field itself, whatever it was cast to *)
   Lemma cell_string_summary : forall sm row r col f, nth_error sm row = Some r -> nth_error (row_fields r) col = Some f ->
-    cell_string fmt (summary_table sm) col row = Ok (cellstr (to_base cast f)).
+    cell_string fmt (summary_table sm) col row = Ok f.
   Proof.
-    intros sm row r col f Hr Hf. unfold cell_string. rewrite (cell_summary sm row r col f Hr Hf). cbn [res_bind].
-    destruct (to_base cast f); reflexivity.
+    intros sm row r col f Hr Hf. unfold cell_string, summary_table. cbn [t_text].
+    rewrite nth_error_map, Hr. cbn [option_map]. rewrite Hf. reflexivity.
   Qed.
 
   (* positions of the fields *)
@@ -209,20 +209,10 @@ Section Summary.
     exists x. split; [reflexivity|]. unfold to_base. rewrite (Hcast f (TNum x) E). reflexivity.
   Qed.
 
-  Lemma stable_cell : forall e, cast_stable e = true -> cellstr (to_base cast e) = e.
-  Proof.
-    intros e H. unfold cast_stable, rendered in H.
-    destruct (go_cast e) as [[x|b|]|] eqn:E; try discriminate.
-    - destruct (go_fmt_v x) as [s|] eqn:Ef; [|discriminate]. apply String.eqb_eq in H. subst s.
-      unfold to_base. rewrite (Hcast e (TNum x) E). cbn [cellstr]. apply Hfmt. exact Ef.
-    - apply String.eqb_eq in H. unfold to_base. rewrite (Hcast e (TBool b) E). cbn [cellstr]. exact H.
-    - unfold to_base. rewrite (Hcast e TText E). reflexivity.
-  Qed.
-
   (* ---------- unpacking well-formedness ---------- *)
 
   Lemma row_ok_inv : forall r, row_ok nv r = true ->
-    len (r_values r) = nv /\ is_text (r_label r) = true /\ is_text (r_note r) = true /\
+    len (r_values r) = nv /\ is_text (r_note r) = true /\
     forallb is_number (r_values r) = true /\ actions_pattern_ok (r_enc r) = true.
   Proof.
     intros r H. unfold row_ok in H.
@@ -265,43 +255,39 @@ Section Summary.
 
   Lemma label_cell : forall row r, nth_error sm row = Some r ->
     cell_string fmt t 0 row = Ok (r_label r).
-  Proof.
-    intros row r Hr. unfold t. rewrite (cell_string_summary sm row r 0 (r_label r) Hr (field_label r)).
-    rewrite text_cell; [reflexivity|]. apply (row_ok_inv r). apply (wf_rows sm W). apply (nth_error_In _ _ Hr).
-  Qed.
+  Proof. intros row r Hr. apply (cell_string_summary sm row r 0 (r_label r) Hr (field_label r)). Qed.
 
   Lemma note_cell : forall row r, nth_error sm row = Some r ->
     cell t (S (S nv)) row = Ok (VStr (r_note r)) /\ cell_string fmt t (S (S nv)) row = Ok (r_note r).
   Proof.
     intros row r Hr. pose proof (nth_error_In _ _ Hr) as Hin.
-    pose proof (row_ok_inv r (wf_rows sm W r Hin)) as [Hl [_ [Hn _]]].
+    pose proof (row_ok_inv r (wf_rows sm W r Hin)) as [Hl [Hn _]].
     unfold t. rewrite (cell_summary sm row r _ _ Hr (field_note r Hl)).
     rewrite (cell_string_summary sm row r _ _ Hr (field_note r Hl)).
     rewrite (text_cell _ Hn). split; reflexivity.
   Qed.
 
-  Lemma enc_cell : forall row r, nth_error sm row = Some r -> cast_stable (r_enc r) = true ->
+  (* the Actions cell is read back verbatim, whatever the encoding looks like *)
+  Lemma enc_cell : forall row r, nth_error sm row = Some r ->
     cell_string fmt t (S nv) row = Ok (r_enc r).
   Proof.
-    intros row r Hr Hs. pose proof (nth_error_In _ _ Hr) as Hin.
+    intros row r Hr. pose proof (nth_error_In _ _ Hr) as Hin.
     pose proof (row_ok_inv r (wf_rows sm W r Hin)) as [Hl _].
-    unfold t. rewrite (cell_string_summary sm row r _ _ Hr (field_enc r Hl)).
-    rewrite (stable_cell _ Hs). reflexivity.
+    unfold t. apply (cell_string_summary sm row r _ _ Hr (field_enc r Hl)).
   Qed.
 
   Lemma value_cell : forall row r i, nth_error sm row = Some r -> i < nv ->
     exists v x, nth_error (r_values r) i = Some v /\ go_cast v = Some (TNum x) /\
-      cell t (S i) row = Ok (VNum x) /\ cell_float64 t (S i) row = Ok x.
+      cell t (S i) row = Ok (VNum x).
   Proof.
     intros row r i Hr Hi. pose proof (nth_error_In _ _ Hr) as Hin.
-    pose proof (row_ok_inv r (wf_rows sm W r Hin)) as [Hl [_ [_ [Hv _]]]].
+    pose proof (row_ok_inv r (wf_rows sm W r Hin)) as [Hl [_ [Hv _]]].
     destruct (nth_error (r_values r) i) as [v|] eqn:Ev; [|apply nth_error_None in Ev; lia].
     rewrite forallb_forall in Hv. specialize (Hv v (nth_error_In _ _ Ev)).
     destruct (number_cell v Hv) as [x [Hg Hb]].
     exists v, x. split; [reflexivity|]. split; [exact Hg|].
     assert (Hf : nth_error (row_fields r) (S i) = Some v) by (rewrite field_value by lia; exact Ev).
-    assert (Hc : cell t (S i) row = Ok (VNum x)) by (unfold t; rewrite (cell_summary sm row r _ _ Hr Hf), Hb; reflexivity).
-    split; [exact Hc|]. unfold cell_float64. rewrite Hc. reflexivity.
+    unfold t; rewrite (cell_summary sm row r _ _ Hr Hf), Hb; reflexivity.
   Qed.
 
   (* ---------- POST /solutions ---------- *)
@@ -310,7 +296,6 @@ Section Summary.
   Proof.
     unfold header_checks, t, summary_table, header. cbn [t_header].
     rewrite header_0. cbn [res_bind]. rewrite len_header.
-    replace (nv + 3 <? 2) with false by (symmetry; apply Nat.ltb_ge; lia).
     replace (nv + 3 - 2) with (S nv) by lia. replace (nv + 3 - 1) with (S (S nv)) by lia.
     unfold index. rewrite header_actions, header_summary. reflexivity.
   Qed.
@@ -323,48 +308,41 @@ Section Summary.
     apply orb_false_elim in Hr. destruct Hr as [Hr1 Hr2]. split; assumption.
   Qed.
 
-  Lemma validate_cell_ok : forall row r col, nth_error sm row = Some r -> cast_stable (r_enc r) = true ->
+  Lemma validate_cell_ok : forall row r col, nth_error sm row = Some r ->
     1 <= col -> col < nv + 3 -> validate_cell fmt t col row = Ok true.
   Proof.
-    intros row r col Hr Hs H1 H2. unfold validate_cell.
+    intros row r col Hr H1 H2. unfold validate_cell.
     destruct col as [|i]; [lia|].
     destruct (lt_dec i nv) as [Hi|Hi].
-    - destruct (value_cell row r i Hr Hi) as [v [x [_ [_ [Hc _]]]]]. rewrite Hc. cbn [res_bind].
+    - destruct (value_cell row r i Hr Hi) as [v [x [_ [_ Hc]]]]. rewrite Hc. cbn [res_bind].
       unfold t, summary_table, header. cbn [t_header]. unfold index. rewrite (header_name i Hi).
       destruct (nth_error names i) as [name|] eqn:En; [|apply nth_error_None in En; rewrite len_names in En; lia].
       cbn [res_bind]. destruct (name_not_reserved i name En) as [Ha Hb]. rewrite Ha, Hb. reflexivity.
     - assert (Hcase : i = nv \/ i = S nv) by lia. destruct Hcase as [->| ->].
       + pose proof (nth_error_In _ _ Hr) as Hin.
-        pose proof (row_ok_inv r (wf_rows sm W r Hin)) as [Hl [_ [_ [_ Hp]]]].
+        pose proof (row_ok_inv r (wf_rows sm W r Hin)) as [Hl [_ [_ Hp]]].
         unfold t at 1. rewrite (cell_summary sm row r _ _ Hr (field_enc r Hl)). cbn [res_bind].
         unfold t at 1, summary_table, header. cbn [t_header]. unfold index. rewrite header_actions. cbn [res_bind].
         replace (String.eqb "Actions" "Solution" || String.eqb "Actions" "Summary") with false by reflexivity.
         replace (String.eqb "Actions" "Actions") with true by reflexivity.
-        rewrite (enc_cell row r Hr Hs). cbn [res_bind]. rewrite Hp. reflexivity.
+        rewrite (enc_cell row r Hr). cbn [res_bind]. rewrite Hp. reflexivity.
       + destruct (note_cell row r Hr) as [Hc _]. rewrite Hc. cbn [res_bind].
         unfold t, summary_table, header. cbn [t_header]. unfold index. rewrite header_summary. reflexivity.
-  Qed.
-
-  Hypothesis Hstable : encodings_stable sm = true.
-
-  Lemma stable_at : forall row r, nth_error sm (S row) = Some r -> cast_stable (r_enc r) = true.
-  Proof.
-    intros row r Hr. unfold encodings_stable in Hstable. rewrite forallb_forall in Hstable.
-    apply Hstable. destruct sm as [|r0 rest]; [discriminate|]. cbn [tl]. cbn in Hr. apply (nth_error_In _ _ Hr).
   Qed.
 
   Lemma derive_ok : derive_request_table cast fmt (CsvRecords (marshal_records names sm)) = Ok (Some t).
   Proof.
     unfold derive_request_table. rewrite (loads_summary sm (wf_lengths sm W)). cbn [res_bind].
-    fold t. rewrite header_checks_ok. cbn [res_bind]. unfold t at 1. rewrite dims_summary. cbn [res_bind].
+    fold t. assert (Hlen : len (header t) = nv + 3) by (exact len_header). rewrite Hlen.
+    replace (nv + 3 <? 3) with false by (symmetry; apply Nat.ltb_ge; lia).
+    rewrite header_checks_ok. cbn [res_bind]. unfold t at 1. rewrite dims_summary. cbn [res_bind].
     assert (Hall : forall x, In x (flat_map (fun row => map (fun col => validate_cell fmt t col row) (seq 1 (nv + 3 - 1)))
                                             (seq 1 (len sm - 1))) -> x = Ok true).
     { intros x Hx. apply in_flat_map in Hx. destruct Hx as [row [Hrow Hx]].
       apply in_map_iff in Hx. destruct Hx as [col [<- Hcol]].
       apply in_seq in Hrow. apply in_seq in Hcol.
-      destruct row as [|row]; [lia|].
-      destruct (nth_error sm (S row)) as [r|] eqn:Er; [|apply nth_error_None in Er; lia].
-      apply (validate_cell_ok (S row) r col Er (stable_at row r Er)); lia. }
+      destruct (nth_error sm row) as [r|] eqn:Er; [|apply nth_error_None in Er; lia].
+      apply (validate_cell_ok row r col Er); lia. }
     assert (Hres : forall l, (forall x, In x l -> x = Ok true) -> all_res l = Ok true).
     { intros l; induction l as [|a l IH]; intro Hl; [reflexivity|].
       cbn [all_res]. rewrite (Hl a (or_introl eq_refl)). cbn [res_bind].
@@ -372,30 +350,29 @@ Section Summary.
     rewrite (Hres _ Hall). reflexivity.
   Qed.
 
+  Lemma all_res_early_true : forall l, (forall x, In x l -> x = Ok true) -> all_res_early l = Ok true.
+  Proof.
+    intros l; induction l as [|a l IH]; intro Hl; [reflexivity|].
+    cbn [all_res_early]. rewrite (Hl a (or_introl eq_refl)). cbn [res_bind].
+    apply IH. intros x Hx; apply Hl; right; exact Hx.
+  Qed.
+
   Lemma verify_asis_row_ok : verify_asis_row asis t 0 = Ok true.
   Proof.
-    unfold verify_asis_row.
-    assert (Hall : forall x, In x (map (fun col =>
-        do name <- index (header t) col; do x <- cell_float64 t col 0;
-        match assoc name asis with None => Panic | Some v => Ok (num_feq x v) end) (seq 1 (len asis))) -> x = Ok true).
-    { intros x Hx. apply in_map_iff in Hx. destruct Hx as [col [<- Hcol]]. apply in_seq in Hcol.
-      destruct col as [|i]; [lia|]. assert (Hi : i < nv) by (unfold nv; lia).
-      pose proof (row0 sm W) as Hr. pose proof (wf_asis sm W) as Hasis. pose proof (wf_names_nodup sm W) as Hnn.
-      destruct (value_cell 0 _ i Hr Hi) as [v [x [Ev [Hg [_ Hf]]]]].
-      unfold t at 1, summary_table, header. cbn [t_header]. unfold index. rewrite (header_name i Hi).
-      destruct (nth_error asis i) as [[k kv]|] eqn:Ea; [|apply nth_error_None in Ea; unfold nv in Hi; lia].
-      assert (En : nth_error names i = Some k) by (unfold names; rewrite nth_error_map, Ea; reflexivity).
-      rewrite En. cbn [res_bind]. rewrite Hf. cbn [res_bind].
-      rewrite (assoc_nodup _ asis i k kv Hnn Ea).
-      unfold asis_values_match in Hasis. apply andb_prop in Hasis. destruct Hasis as [_ Hm].
-      rewrite forallb_forall in Hm.
-      specialize (Hm (v, (k, kv)) (nth_error_In _ _ (nth_error_combine _ _ _ _ i v (k, kv) Ev Ea))).
-      cbn [fst snd] in Hm. rewrite Hg in Hm. rewrite Hm. reflexivity. }
-    assert (Hres : forall l, (forall x, In x l -> x = Ok true) -> all_res_early l = Ok true).
-    { intros l; induction l as [|a l IH]; intro Hl; [reflexivity|].
-      cbn [all_res_early]. rewrite (Hl a (or_introl eq_refl)). cbn [res_bind].
-      apply IH. intros x Hx; apply Hl; right; exact Hx. }
-    apply Hres. exact Hall.
+    unfold verify_asis_row. apply all_res_early_true.
+    intros x Hx. apply in_map_iff in Hx. destruct Hx as [col [<- Hcol]]. apply in_seq in Hcol.
+    destruct col as [|i]; [lia|]. assert (Hi : i < nv) by (unfold nv; lia).
+    pose proof (row0 sm W) as Hr. pose proof (wf_asis sm W) as Hasis. pose proof (wf_names_nodup sm W) as Hnn.
+    destruct (value_cell 0 _ i Hr Hi) as [v [x [Ev [Hg Hc]]]].
+    unfold t at 1, summary_table, header. cbn [t_header]. unfold index. rewrite (header_name i Hi).
+    destruct (nth_error asis i) as [[k kv]|] eqn:Ea; [|apply nth_error_None in Ea; unfold nv in Hi; lia].
+    assert (En : nth_error names i = Some k) by (unfold names; rewrite nth_error_map, Ea; reflexivity).
+    rewrite En. cbn [res_bind]. rewrite Hc. cbn [res_bind].
+    rewrite (assoc_nodup _ asis i k kv Hnn Ea).
+    unfold asis_values_match in Hasis. apply andb_prop in Hasis. destruct Hasis as [_ Hm].
+    rewrite forallb_forall in Hm.
+    specialize (Hm (v, (k, kv)) (nth_error_In _ _ (nth_error_combine _ _ _ _ i v (k, kv) Ev Ea))).
+    cbn [fst snd] in Hm. rewrite Hg in Hm. rewrite Hm. reflexivity.
   Qed.
 
   Lemma other_label_not_asis : forall row r, nth_error sm (S row) = Some r -> String.eqb (r_label r) "As-Is" = false.
@@ -409,12 +386,9 @@ Section Summary.
 
   Lemma verify_ok : verify_summary fmt asis t = Ok true.
   Proof.
-    unfold verify_summary. unfold t at 1. rewrite dims_summary. cbn [res_bind snd].
-    assert (Hres : forall l, (forall x, In x l -> x = Ok true) -> all_res_early l = Ok true).
-    { intros l; induction l as [|a l IH]; intro Hl; [reflexivity|].
-      cbn [all_res_early]. rewrite (Hl a (or_introl eq_refl)). cbn [res_bind].
-      apply IH. intros x Hx; apply Hl; right; exact Hx. }
-    apply Hres. intros x Hx. apply in_map_iff in Hx. destruct Hx as [row [<- Hrow]]. apply in_seq in Hrow.
+    unfold verify_summary. unfold t at 1. rewrite dims_summary. cbn [res_bind fst snd].
+    fold nv. replace (nv + 3 <? nv + 3) with false by (symmetry; apply Nat.ltb_irrefl).
+    apply all_res_early_true. intros x Hx. apply in_map_iff in Hx. destruct Hx as [row [<- Hrow]]. apply in_seq in Hrow.
     destruct (nth_error sm row) as [r|] eqn:Er; [|apply nth_error_None in Er; lia].
     rewrite (label_cell row r Er). cbn [res_bind].
     destruct row as [|row].
@@ -423,8 +397,9 @@ Section Summary.
     - rewrite (other_label_not_asis row r Er). reflexivity.
   Qed.
 
+  (* whatever the engine held before (any table, any pool): the table is replaced and the pool emptied *)
   Lemma post_ok : forall st,
-    post_solutions cast fmt asis st (CsvRecords (marshal_records names sm)) = Ok (S200, mkState (Some t) (s_pool st)).
+    post_solutions cast fmt asis st (CsvRecords (marshal_records names sm)) = Ok (S200, mkState (Some t) []).
   Proof.
     intros st. unfold post_solutions. rewrite derive_ok. cbn [res_bind]. rewrite verify_ok. reflexivity.
   Qed.
@@ -462,7 +437,7 @@ Section Summary.
     apply String.eqb_eq in Heq. apply (Hno (nth row sm drow)); [apply nth_In; lia|exact Heq].
   Qed.
 
-  Lemma first_detail_spec : forall label rows, (forall row, In row rows -> 1 <= row < len sm) ->
+  Lemma first_detail_spec : forall label rows, (forall row, In row rows -> row < len sm) ->
     first_detail fmt t (nv + 3) label rows =
     Ok (match find (fun row => String.eqb (r_label (nth row sm drow)) label) rows with
         | Some row => Some (r_enc (nth row sm drow), r_note (nth row sm drow))
@@ -470,31 +445,30 @@ Section Summary.
   Proof.
     intros label rows; induction rows as [|row rows IH]; intro Hin; [reflexivity|].
     cbn [first_detail find].
-    assert (Hrow : 1 <= row < len sm) by (apply Hin; left; reflexivity).
+    assert (Hrow : row < len sm) by (apply Hin; left; reflexivity).
     assert (Er : nth_error sm row = Some (nth row sm drow)) by (apply nth_error_nth'; lia).
     rewrite (label_cell row _ Er). cbn [res_bind].
     destruct (String.eqb (r_label (nth row sm drow)) label) eqn:El.
     - replace (nv + 3 <? 2) with false by (symmetry; apply Nat.ltb_ge; lia).
       replace (nv + 3 - 2) with (S nv) by lia. replace (nv + 3 - 1) with (S (S nv)) by lia.
-      destruct row as [|row']; [lia|].
-      rewrite (enc_cell (S row') _ Er (stable_at row' _ Er)). cbn [res_bind].
-      destruct (note_cell (S row') _ Er) as [_ Hn]. rewrite Hn. reflexivity.
+      rewrite (enc_cell row _ Er). cbn [res_bind].
+      destruct (note_cell row _ Er) as [_ Hn]. rewrite Hn. reflexivity.
     - apply IH. intros x Hx. apply Hin. right. exact Hx.
   Qed.
 
-  Lemma detail_of_row : forall i r, nth_error sm (S i) = Some r ->
+  Lemma detail_of_row : forall i r, nth_error sm i = Some r ->
     get_solution_detail fmt t (r_label r) = Ok (Some (r_enc r, r_note r)).
   Proof.
     intros i r Hr. unfold get_solution_detail. unfold t at 1. rewrite dims_summary. cbn [res_bind fst snd].
     rewrite first_detail_spec by (intros row Hrow; apply in_seq in Hrow; lia).
-    assert (Hlt : S i < len sm) by (apply nth_error_Some; congruence).
-    rewrite (find_unique _ _ (seq 1 (len sm - 1)) (S i)).
+    assert (Hlt : i < len sm) by (apply nth_error_Some; congruence).
+    rewrite (find_unique _ _ (seq 0 (len sm)) i).
     - rewrite (nth_error_nth _ _ drow Hr). reflexivity.
     - apply in_seq. lia.
     - rewrite (nth_error_nth _ _ drow Hr). apply String.eqb_refl.
     - intros y Hy Hp. apply in_seq in Hy. apply String.eqb_eq in Hp.
       assert (Ey : nth_error sm y = Some (nth y sm drow)) by (apply nth_error_nth'; lia).
-      apply (nodup_labels_unique (map r_label sm) y (S i) (r_label r) (wf_nodup sm W)).
+      apply (nodup_labels_unique (map r_label sm) y i (r_label r) (wf_nodup sm W)).
       + rewrite nth_error_map, Ey. cbn [option_map]. rewrite Hp. reflexivity.
       + rewrite nth_error_map, Hr. reflexivity.
   Qed.
@@ -506,7 +480,7 @@ Section Summary.
     intros i r pool Hr Hpool. unfold get_solution. cbn [s_table s_pool].
     rewrite (contains_row (S i) r Hr). cbn [res_bind negb].
     rewrite (other_label_not_asis i r Hr). rewrite Hpool.
-    rewrite (detail_of_row i r Hr). reflexivity.
+    rewrite (detail_of_row (S i) r Hr). reflexivity.
   Qed.
 
   Lemma get_cached : forall i r pool e s, nth_error sm (S i) = Some r -> assoc (r_label r) pool = Some (e, s) ->
@@ -533,17 +507,16 @@ Section Summary.
 
   (* ---------- front membership ---------- *)
 
-  Lemma front_scan_spec : forall e rows, (forall row, In row rows -> 1 <= row < len sm) ->
+  Lemma front_scan_spec : forall e rows, (forall row, In row rows -> row < len sm) ->
     front_scan fmt t (nv + 3) e rows = Ok (existsb (fun row => String.eqb e (r_enc (nth row sm drow))) rows).
   Proof.
     intros e rows; induction rows as [|row rows IH]; intro Hin; [reflexivity|].
     cbn [front_scan existsb].
-    assert (Hrow : 1 <= row < len sm) by (apply Hin; left; reflexivity).
+    assert (Hrow : row < len sm) by (apply Hin; left; reflexivity).
     assert (Er : nth_error sm row = Some (nth row sm drow)) by (apply nth_error_nth'; lia).
     replace (nv + 3 <? 2) with false by (symmetry; apply Nat.ltb_ge; lia).
     replace (nv + 3 - 2) with (S nv) by lia.
-    destruct row as [|row']; [lia|].
-    rewrite (enc_cell (S row') _ Er (stable_at row' _ Er)). cbn [res_bind].
+    rewrite (enc_cell row _ Er). cbn [res_bind].
     rewrite IH by (intros x Hx; apply Hin; right; exact Hx). reflexivity.
   Qed.
 
@@ -592,179 +565,113 @@ Definition loaded (cast : caster) (asis : list (string * num)) (sm : list srow)
            (pool : list (string * (string * string))) : state :=
   mkState (Some (summary_table cast asis sm)) pool.
 
-Lemma c13_accepts : forall cast fmt asis sm st, cast_agrees cast -> fmt_agrees fmt ->
-  wf_summary asis sm = true -> encodings_stable sm = true ->
+Lemma c13_accepts : forall cast fmt asis sm st, cast_agrees cast ->
+  wf_summary asis sm = true ->
   post_solutions cast fmt asis st (CsvRecords (marshal_records (map fst asis) sm)) =
-  Ok (S200, loaded cast asis sm (s_pool st)).
+  Ok (S200, loaded cast asis sm []).
 Proof.
-  intros cast fmt asis sm st Hc Hf Hwf Hs.
-  apply (post_ok cast fmt asis Hc Hf sm (wf_summary_inv asis sm Hwf) Hs st).
+  intros cast fmt asis sm st Hc Hwf.
+  apply (post_ok cast fmt asis Hc sm (wf_summary_inv asis sm Hwf) st).
 Qed.
 
-Lemma c13_lookup_exact : forall cast fmt asis sm pool r, cast_agrees cast -> fmt_agrees fmt ->
-  wf_summary asis sm = true -> encodings_stable sm = true ->
+Lemma c13_lookup_exact : forall cast fmt asis sm pool r, cast_agrees cast ->
+  wf_summary asis sm = true ->
   In r (tl sm) -> assoc (r_label r) pool = None ->
   get_solution fmt (loaded cast asis sm pool) (r_label r) =
   Ok (Decoded (r_enc r) (r_note r), loaded cast asis sm ((r_label r, (r_enc r, r_note r)) :: pool)).
 Proof.
-  intros cast fmt asis sm pool r Hc Hf Hwf Hs Hin Hp. destruct (in_tl_nth sm r Hin) as [i Hi].
-  apply (get_row cast fmt asis Hc Hf sm (wf_summary_inv asis sm Hwf) Hs i r pool Hi Hp).
+  intros cast fmt asis sm pool r Hc Hwf Hin Hp. destruct (in_tl_nth sm r Hin) as [i Hi].
+  apply (get_row cast fmt asis Hc sm (wf_summary_inv asis sm Hwf) i r pool Hi Hp).
 Qed.
 
-Lemma c13_lookup_again : forall cast fmt asis sm pool r, cast_agrees cast -> fmt_agrees fmt ->
-  wf_summary asis sm = true -> encodings_stable sm = true ->
+Lemma c13_lookup_again : forall cast fmt asis sm pool r, cast_agrees cast ->
+  wf_summary asis sm = true ->
   In r (tl sm) -> assoc (r_label r) pool = None ->
   exists st', get_solution fmt (loaded cast asis sm pool) (r_label r) = Ok (Decoded (r_enc r) (r_note r), st') /\
     get_solution fmt st' (r_label r) = Ok (Decoded (r_enc r) (r_note r), st').
 Proof.
-  intros cast fmt asis sm pool r Hc Hf Hwf Hs Hin Hp. destruct (in_tl_nth sm r Hin) as [i Hi].
+  intros cast fmt asis sm pool r Hc Hwf Hin Hp. destruct (in_tl_nth sm r Hin) as [i Hi].
   eexists. split.
-  - apply (get_row cast fmt asis Hc Hf sm (wf_summary_inv asis sm Hwf) Hs i r pool Hi Hp).
-  - apply (get_cached cast fmt asis Hc sm (wf_summary_inv asis sm Hwf) Hs i r _ _ _ Hi).
+  - apply (get_row cast fmt asis Hc sm (wf_summary_inv asis sm Hwf) i r pool Hi Hp).
+  - apply (get_cached cast fmt asis sm (wf_summary_inv asis sm Hwf) i r _ _ _ Hi).
     cbn [assoc]. rewrite String.eqb_refl. reflexivity.
 Qed.
 
-Lemma c13_lookup_asis : forall cast fmt asis sm pool, cast_agrees cast ->
+Lemma c13_lookup_asis : forall cast fmt asis sm pool,
   wf_summary asis sm = true ->
   get_solution fmt (loaded cast asis sm pool) "As-Is" = Ok (AsIsSolution, loaded cast asis sm pool).
 Proof.
-  intros cast fmt asis sm pool Hc Hwf. apply (get_asis cast fmt asis Hc sm (wf_summary_inv asis sm Hwf) pool).
+  intros cast fmt asis sm pool Hwf. apply (get_asis cast fmt asis sm (wf_summary_inv asis sm Hwf) pool).
 Qed.
 
-Lemma c13_lookup_unknown : forall cast fmt asis sm pool label, cast_agrees cast ->
-  wf_summary asis sm = true -> (forall r, In r sm -> r_label r <> label) ->
+Lemma c13_lookup_unknown : forall cast fmt asis sm pool label,
+  (forall r, In r sm -> r_label r <> label) ->
   get_solution fmt (loaded cast asis sm pool) label = Ok (NotFound, loaded cast asis sm pool).
 Proof.
-  intros cast fmt asis sm pool label Hc Hwf Hno.
-  apply (get_unknown cast fmt asis Hc sm (wf_summary_inv asis sm Hwf) pool label Hno).
+  intros cast fmt asis sm pool label Hno.
+  apply (get_unknown cast fmt asis sm pool label Hno).
 Qed.
 
-Lemma c13_front_member : forall cast fmt asis recode sm pool r, cast_agrees cast -> fmt_agrees fmt ->
-  wf_summary asis sm = true -> encodings_stable sm = true ->
+Lemma c13_front_member : forall cast fmt asis recode sm pool r, cast_agrees cast ->
+  wf_summary asis sm = true ->
   In r (tl sm) -> recode (r_enc r) = Some (r_enc r) ->
   pareto_member fmt recode (loaded cast asis sm pool) (r_enc r) = Ok (Some (Some true)).
 Proof.
-  intros cast fmt asis recode sm pool r Hc Hf Hwf Hs Hin Hre. destruct (in_tl_nth sm r Hin) as [i Hi].
-  apply (pareto_row cast fmt asis Hc Hf sm (wf_summary_inv asis sm Hwf) Hs recode pool i r Hi Hre).
+  intros cast fmt asis recode sm pool r Hc Hwf Hin Hre. destruct (in_tl_nth sm r Hin) as [i Hi].
+  apply (pareto_row cast fmt asis sm (wf_summary_inv asis sm Hwf) recode pool i r Hi Hre).
 Qed.
 
-Lemma c13_front_non_member : forall cast fmt asis recode sm pool e e', cast_agrees cast -> fmt_agrees fmt ->
-  wf_summary asis sm = true -> encodings_stable sm = true ->
+Lemma c13_front_non_member : forall cast fmt asis recode sm pool e e', cast_agrees cast ->
+  wf_summary asis sm = true ->
   recode e = Some e' -> (forall r, In r (tl sm) -> r_enc r <> e') ->
   pareto_member fmt recode (loaded cast asis sm pool) e = Ok (Some (Some false)).
 Proof.
-  intros cast fmt asis recode sm pool e e' Hc Hf Hwf Hs Hre Hno.
-  apply (pareto_non_member cast fmt asis Hc Hf sm (wf_summary_inv asis sm Hwf) Hs recode pool e e' Hre Hno).
+  intros cast fmt asis recode sm pool e e' Hc Hwf Hre Hno.
+  apply (pareto_non_member cast fmt asis sm (wf_summary_inv asis sm Hwf) recode pool e e' Hre Hno).
 Qed.
 
-(* fresh engine: POST then GET *)
-Lemma c13_round_trip : forall cast fmt asis sm r, cast_agrees cast -> fmt_agrees fmt ->
-  wf_summary asis sm = true -> encodings_stable sm = true -> In r (tl sm) ->
+(* ANY engine state (any earlier summary, any pooled solutions): POST then GET *)
+Lemma c13_round_trip : forall cast fmt asis sm st r, cast_agrees cast ->
+  wf_summary asis sm = true -> In r (tl sm) ->
   exists st' st'',
-    post_solutions cast fmt asis fresh (CsvRecords (marshal_records (map fst asis) sm)) = Ok (S200, st') /\
+    post_solutions cast fmt asis st (CsvRecords (marshal_records (map fst asis) sm)) = Ok (S200, st') /\
     get_solution fmt st' (r_label r) = Ok (Decoded (r_enc r) (r_note r), st'').
 Proof.
-  intros cast fmt asis sm r Hc Hf Hwf Hs Hin. eexists. eexists. split.
-  - apply (c13_accepts cast fmt asis sm fresh Hc Hf Hwf Hs).
-  - apply (c13_lookup_exact cast fmt asis sm [] r Hc Hf Hwf Hs Hin). reflexivity.
+  intros cast fmt asis sm st r Hc Hwf Hin. eexists. eexists. split.
+  - apply (c13_accepts cast fmt asis sm st Hc Hwf).
+  - apply (c13_lookup_exact cast fmt asis sm [] r Hc Hwf Hin). reflexivity.
 Qed.
 
-(* ---------- refutations of the statements WITHOUT the stability hypothesis (defect D9) ---------- *)
+(* ---------- the former refutation witnesses of defect D9 and of the stale pool now round-trip ---------- *)
 
 Definition ex_asis : list (string * num) := [("A", Fin false 1); ("B", Fin false (5 # 2))].
 Definition ex_row0 : srow := mkRow "As-Is" ["1.000"; "2.500"] "0" "As-is state; zero active management actions".
-Definition ex_summary (enc : string) : list srow :=
-  [ex_row0; mkRow "1-of-1" ["0.500"; "3.000"] enc "Pareto front member 1 of 1"].
-Definition ex_records (enc : string) := CsvRecords (marshal_records (map fst ex_asis) (ex_summary enc)).
-
-Definition st_of (r : res (status * state)) : state := match r with Ok (_, st) => st | Panic => fresh end.
-Definition gst_of (r : res (found * state)) : state := match r with Ok (_, st) => st | Panic => fresh end.
 Definition ex_row1 (enc : string) : srow := mkRow "1-of-1" ["0.500"; "3.000"] enc "Pareto front member 1 of 1".
+Definition ex_summary (enc : string) : list srow := [ex_row0; ex_row1 enc].
 
-Definition ex_st_1E3 : state := Eval vm_compute in st_of (post_solutions model_cast model_fmt ex_asis fresh (ex_records "1E3")).
-Definition ex_st_1E3' : state := Eval vm_compute in gst_of (get_solution model_fmt ex_st_1E3 "1-of-1").
-Definition ex_st_F : state := Eval vm_compute in st_of (post_solutions model_cast model_fmt ex_asis fresh (ex_records "F")).
-Definition ex_st_a1 : state := Eval vm_compute in st_of (post_solutions model_cast model_fmt ex_asis fresh (ex_records "3")).
-Definition ex_st_a2 : state := Eval vm_compute in gst_of (get_solution model_fmt ex_st_a1 "1-of-1").
-Definition ex_st_a3 : state := Eval vm_compute in st_of (post_solutions model_cast model_fmt ex_asis ex_st_a2 (ex_records "C")).
-Definition ex_st_a4 : state := Eval vm_compute in gst_of (get_solution model_fmt ex_st_a3 "1-of-1").
+(* executable: from engine state [st], POST the summary whose one solution row has encoding [enc], GET its label,
+   set the model from its encoding; true iff 200, the row's own encoding and note come back, and it is a front member *)
+Definition ex_round_trips_from (st : state) (enc : string) : bool :=
+  wf_summary ex_asis (ex_summary enc) &&
+  match post_solutions model_cast model_fmt ex_asis st (CsvRecords (marshal_records (map fst ex_asis) (ex_summary enc))) with
+  | Ok (S200, st') =>
+    match get_solution model_fmt st' "1-of-1" with
+    | Ok (Decoded e s, _) => String.eqb e enc && String.eqb s "Pareto front member 1 of 1"
+    | _ => false
+    end &&
+    match pareto_member model_fmt (fun e => Some e) st' enc with
+    | Ok (Some (Some true)) => true
+    | _ => false
+    end
+  | _ => false
+  end.
 
-Lemma c13_lookup_exact_refuted :
-  exists asis sm r, wf_summary asis sm = true /\ In r (tl sm) /\
-    exists st' e s st'',
-      post_solutions model_cast model_fmt asis fresh (CsvRecords (marshal_records (map fst asis) sm)) = Ok (S200, st') /\
-      get_solution model_fmt st' (r_label r) = Ok (Decoded e s, st'') /\ e <> r_enc r.
-Proof.
-  exists ex_asis, (ex_summary "1E3"), (ex_row1 "1E3").
-  split; [vm_compute; reflexivity|]. split; [left; reflexivity|].
-  exists ex_st_1E3, "1000", "Pareto front member 1 of 1", ex_st_1E3'.
-  split; [vm_compute; reflexivity|]. split; [vm_compute; reflexivity|]. discriminate.
-Qed.
-
-Lemma c13_accepts_refuted :
-  exists asis sm, wf_summary asis sm = true /\
-    post_solutions model_cast model_fmt asis fresh (CsvRecords (marshal_records (map fst asis) sm)) = Ok (S400, fresh).
-Proof.
-  exists ex_asis, (ex_summary "1000000"). split; vm_compute; reflexivity.
-Qed.
-
-Lemma c13_front_member_refuted :
-  exists asis sm r st', wf_summary asis sm = true /\ In r (tl sm) /\
-    post_solutions model_cast model_fmt asis fresh (CsvRecords (marshal_records (map fst asis) sm)) = Ok (S200, st') /\
-    pareto_member model_fmt (fun e => Some e) st' (r_enc r) = Ok (Some (Some false)).
-Proof.
-  exists ex_asis, (ex_summary "F"), (ex_row1 "F"), ex_st_F.
-  split; [vm_compute; reflexivity|]. split; [left; reflexivity|].
-  split; vm_compute; reflexivity.
-Qed.
-
-(* the pool survives POST /solutions: a label fetched under one summary keeps answering with that summary's row *)
-Lemma c13_lookup_after_repost_refuted :
-  exists asis sm1 sm2 r,
-    wf_summary asis sm1 = true /\ encodings_stable sm1 = true /\
-    wf_summary asis sm2 = true /\ encodings_stable sm2 = true /\ In r (tl sm2) /\
-    exists st1 st2 st3 st4 f e s,
-      post_solutions model_cast model_fmt asis fresh (CsvRecords (marshal_records (map fst asis) sm1)) = Ok (S200, st1) /\
-      get_solution model_fmt st1 (r_label r) = Ok (f, st2) /\
-      post_solutions model_cast model_fmt asis st2 (CsvRecords (marshal_records (map fst asis) sm2)) = Ok (S200, st3) /\
-      get_solution model_fmt st3 (r_label r) = Ok (Decoded e s, st4) /\ e <> r_enc r.
-Proof.
-  exists ex_asis, (ex_summary "3"), (ex_summary "C"), (ex_row1 "C").
-  split; [vm_compute; reflexivity|]. split; [vm_compute; reflexivity|].
-  split; [vm_compute; reflexivity|]. split; [vm_compute; reflexivity|]. split; [left; reflexivity|].
-  exists ex_st_a1, ex_st_a2, ex_st_a3, ex_st_a4, (Decoded "3" "Pareto front member 1 of 1"), "3", "Pareto front member 1 of 1".
-  split; [vm_compute; reflexivity|]. split; [vm_compute; reflexivity|].
-  split; [vm_compute; reflexivity|]. split; [vm_compute; reflexivity|]. discriminate.
-Qed.
-
-(* ---------- scenarios with more than 64 actions: encodings of several words are never type-cast ---------- *)
-
-Definition multiword (sm : list srow) : bool :=
-  forallb (fun r => existsb (Ascii.eqb ":"%char) (chars (r_enc r))) (tl sm).
-
-Lemma multiword_stable : forall asis sm, wf_summary asis sm = true -> multiword sm = true ->
-  encodings_stable sm = true.
-Proof.
-  intros asis sm Hwf Hm. unfold encodings_stable. apply forallb_forall. intros r Hin.
-  unfold multiword in Hm. rewrite forallb_forall in Hm. specialize (Hm r Hin).
-  apply existsb_exists in Hm. destruct Hm as [c [Hc Heq]]. apply Ascii.eqb_eq in Heq. subst c.
-  apply colon_encoding_stable; [|exact Hc].
-  destruct sm as [|r0 rest]; [discriminate|]. cbn [tl] in Hin. cbn [wf_summary] in Hwf.
-  repeat (apply andb_prop in Hwf; destruct Hwf as [Hwf ?]).
-  match goal with Hf : forallb (row_ok _) _ = true |- _ => rewrite forallb_forall in Hf; specialize (Hf r (or_intror Hin)) end.
-  unfold row_ok in *. repeat match goal with Hf : _ && _ = true |- _ => apply andb_prop in Hf; destruct Hf as [Hf ?] end.
-  assumption.
-Qed.
-
-Lemma c13_round_trip_multiword : forall cast fmt asis sm r, cast_agrees cast -> fmt_agrees fmt ->
-  wf_summary asis sm = true -> multiword sm = true -> In r (tl sm) ->
-  exists st' st'',
-    post_solutions cast fmt asis fresh (CsvRecords (marshal_records (map fst asis) sm)) = Ok (S200, st') /\
-    get_solution fmt st' (r_label r) = Ok (Decoded (r_enc r) (r_note r), st'').
-Proof.
-  intros cast fmt asis sm r Hc Hf Hwf Hm Hin.
-  apply (c13_round_trip cast fmt asis sm r Hc Hf Hwf (multiword_stable asis sm Hwf Hm) Hin).
-Qed.
+(* an engine that has already served label 1-of-1 of ANOTHER summary (encoding 3) *)
+Definition ex_used_state : state :=
+  match post_solutions model_cast model_fmt ex_asis fresh (CsvRecords (marshal_records (map fst ex_asis) (ex_summary "3"))) with
+  | Ok (_, st1) => match get_solution model_fmt st1 "1-of-1" with Ok (_, st2) => st2 | Panic => fresh end
+  | Panic => fresh
+  end.
 
 (* ---------- the value texts the marshaller writes ("%.3f") are numbers for the caster (unbounded) ---------- *)
 
